@@ -1069,7 +1069,11 @@ class An:
         elif re.search(r'One::is_one$',d):
             x=args[0]
             if isinstance(x,Rec): v=('test','is_one',self.single_sym(self.recval(s,x)) if isinstance(self.recval(s,x),dict) else None,1)
-            elif isinstance(x,IntV) : v=('test','is_one',self.single_sym(x.val) if prove_eq(s.facts,x.dim,TERM0) else None,1)
+            elif isinstance(x,IntV):
+                v=('test','is_one',self.single_sym(x.val) if prove_eq(s.facts,x.dim,TERM0) else None,1)
+                if v[2] is None and isinstance(x.val,dict) and len(x.val)==1 and prove_eq(s.facts,x.dim,TERM0):
+                    (m_,c_),=x.val.items()
+                    if len(m_)==1 and m_[0][1]==1 and c_ in (1,-1): v=('test','eqc',m_[0][0],int(1/c_))      # (c*x).is_one()  <=>  x == 1/c
         elif re.search(r'BigDecimal::to_ref$|::to_owned$|clone::Clone::clone$|convert::Into::into$|convert::From::from$|BigDecimal::normalized$|borrow::ToOwned',res) or re.search(r'convert::Into::into$|convert::From::from$|clone::Clone::clone$',d):
             x=args[0] if args else None
             if isinstance(x,Rec):
@@ -1104,6 +1108,27 @@ class An:
         elif re.search(r'Zero::set_zero$',d):
             x=args[0]
             if isinstance(x,IntV): x.val={}; x.dim=('unk','anydim'); x.anydim=True
+        elif re.search(r'mem::replace$',d) and len(args)==2:
+            # returns the old content, stores the new one
+            a,b=args[0],args[1]
+            if isinstance(a,IntV):
+                v=IntV(a.val,a.dim)
+                if isinstance(b,IntV): a.val,a.dim=b.val,b.dim; a.__dict__.pop('anydim',None); a.__dict__.update({k_:v_ for k_,v_ in b.__dict__.items() if k_=='anydim'})
+                else: a.val=None
+            elif isinstance(a,Rec):
+                v=Rec(a.scale,IntV(a.ival.val,a.ival.dim) if a.ival is not None else None,a.val,a.sign,'replaced@%d'%line)
+                if isinstance(b,Rec): a.__dict__.update({k_:v_ for k_,v_ in b.__dict__.items()})
+                else: a.ival=None; a.val=None; a.scale=('unk','replaced@%d'%line)
+        elif re.search(r'mem::take$',d) and len(args)==1:
+            a=args[0]
+            if isinstance(a,IntV):
+                v=IntV(a.val,a.dim); a.val={}; a.dim=('unk','anydim'); a.anydim=True
+            elif isinstance(a,Rec):
+                v=Rec(a.scale,IntV(a.ival.val,a.ival.dim) if a.ival is not None else None,a.val,a.sign,'taken@%d'%line)
+                a.scale=TERM0; a.ival=IntV({},TERM0); a.val=None; a.sign=None
+        elif re.search(r'::wrapping_neg$|::checked_neg$',d) and len(args)==1 and isinstance(args[0],IntV) and re.search(r'impl i(8|16|32|64|128|size)>::',res or d):
+            # two's-complement negation of a signed primitive: -x except at MIN, where it is MIN again (|MIN| is no power-of-ten shortcut value)
+            v=IntV(padd({},args[0].val,-1) if isinstance(args[0].val,dict) else args[0].val,args[0].dim)
         elif re.search(r'mem::swap$',d):
             a,b=args[0],args[1]
             if isinstance(a,IntV) and isinstance(b,IntV): a.val,b.val=b.val,a.val; a.dim,b.dim=b.dim,a.dim
